@@ -31,7 +31,8 @@ Definition build_mapping (t : ity) (lay : nat) (pv : option Z) (pat : list (opti
   match lay with
   | 0%nat => Ok (MLeft es)
   | 1%nat => Ok (MRight es)
-  | 2%nat => Ok (MStride es (map (wrap t) ss))
+  | 2%nat => if Nat.eqb ctor 3 then rmap (MStride es) (default_stride_strides t es)     (* mapping() *)
+             else Ok (MStride es (map (wrap t) ss))
   | 3%nat => if Nat.eqb ctor 2 then pad_ctor_ext_pv t true pv (pad_se true pat) es dpv
              else pad_ctor_ext t true pv (pad_se true pat) es
   | _ => if Nat.eqb ctor 2 then pad_ctor_ext_pv t false pv (pad_se false pat) es dpv
